@@ -1717,6 +1717,47 @@ def m_iter_size_hint(I, args, callee):
     return Agg('tuple', [usize(n), some(usize(n))])
 
 
+def _ranges_latin1(pred):
+    rs = []
+    start = None
+    for c in range(256):
+        if pred(chr(c)):
+            if start is None:
+                start = c
+        elif start is not None:
+            rs.append((start, c - 1))
+            start = None
+    if start is not None:
+        rs.append((start, 255))
+    return rs
+
+
+_CHAR_PREDS = {
+    'is_alphanumeric': str.isalnum, 'is_alphabetic': str.isalpha, 'is_numeric': str.isnumeric,
+    'is_whitespace': str.isspace, 'is_lowercase': str.islower, 'is_uppercase': str.isupper,
+    'is_ascii_alphanumeric': lambda c: c.isascii() and c.isalnum(), 'is_ascii_alphabetic': lambda c: c.isascii() and c.isalpha(),
+    'is_ascii_digit': lambda c: c in '0123456789', 'is_ascii_whitespace': lambda c: c in ' \t\n\r\x0c',
+    'is_ascii_lowercase': lambda c: 'a' <= c <= 'z', 'is_ascii_uppercase': lambda c: 'A' <= c <= 'Z',
+    'is_ascii_punctuation': lambda c: c.isascii() and c.isprintable() and not c.isalnum() and c != ' ',
+    'is_ascii': lambda c: c.isascii(), 'is_control': lambda c: ord(c) < 32 or 127 <= ord(c) < 160,
+    'is_ascii_hexdigit': lambda c: c in '0123456789abcdefABCDEF', 'is_ascii_graphic': lambda c: 33 <= ord(c) <= 126,
+}
+
+
+def m_char_pred(I, args, callee):
+    name = callee.split('::')[-1]
+    pred = _CHAR_PREDS.get(name)
+    if pred is None:
+        raise Unsupported(callee)
+    c = I.deref(args[0]) if isinstance(args[0], Ref) else args[0]
+    if c.conc():
+        return BoolV(bool(pred(chr(c.v))))
+    if I.check_with(z3.UGE(c.v, 256)) == z3.sat:
+        raise Unsupported(callee + ' on a symbolic char beyond U+00FF')
+    rs = _ranges_latin1(pred)
+    return I._boolv(z3.Or([z3.And(z3.UGE(c.v, a), z3.ULE(c.v, b)) for a, b in rs])) if rs else BoolV(False)
+
+
 def m_slice_windows(I, args, callee):
     sl = as_slice(I, args[0])
     n = I.concretize(args[1], 'windows size')
@@ -1746,6 +1787,7 @@ def m_path_display(I, args, callee):
 
 
 MODELS = [
+    (r'^(core::)?char::methods::<impl char>::is_\w+$|^(core::)?num::<impl u8>::is_ascii\w*$', m_char_pred),
     (r' as Iterator>::size_hint$', m_iter_size_hint),
     (r'^<.* as (ExactSizeIterator)>::len$', m_iter_count),
     (r'^<impl Iterator<.*> as IntoIterator>::into_iter$', m_identity),
